@@ -9,6 +9,9 @@ import Proofs.Lemmas.ExcIter
 import Proofs.Lemmas.HierGraph
 import Model.ExcPairs
 import Generated.C05Pairs
+import Model.ExcShape
+import Proofs.Lemmas.ExcShape
+import Generated.C05TryShape
 /-!
 # C05 — first matching catch, finally exactly once, uncaught errors fail the process
 
@@ -368,6 +371,142 @@ theorem C05_refines_pinned_counterexample :
       [.enterTry 0 2, .enterTry 0 1, .caught 0 1 0 (.obj 4 1), .caught 0 2 0 (.obj 4 1), .echo 0 1] := by
   constructor <;> decide
 
+/-! ## the clause list: built as parsed, scanned first-match — and what leaving a clause out does
+
+`execC` is the scan over the clauses *of the source*. Between the source and the scan sits the parser
+(`parser/try_parser.go`), which builds `TryStatement.CatchBlocks`; a parse-time rewrite of the statement — leaving out
+a clause whose body is "only `throw $e;`" or empty, merging, folding — changes what the scan sees without touching
+`node/try.go`. This section says exactly when leaving clauses out is invisible, why a rethrow-only clause is not a
+no-op, and pins the parser's clause loop and the scan loop of the tree being checked to the shape the model mirrors
+(`Generated.C05TryShape`, regenerated on every run). -/
+
+/-- **The scan in closed form.** For every clause list the catch phase runs the body of the first clause (source
+order) whose `catchTypeMatches` answers yes — after that clause's `caught` event, the variable bound to the thrown
+value — and nothing else; with no such clause the value stays pending. -/
+theorem C05_handler_is_selection (G : Graph) (cfg : Cfg) (A : Act) (i : Nat) (x : Thrown) (cs : Catches) (tr : List Ev) :
+    execC G cfg A i 0 x cs tr = handleWith G cfg A i 0 x tr (sel G x cs) ∧
+    handleWith G cfg A i 0 x tr none = (.thr x, tr) ∧
+    ∀ j h, handleWith G cfg A i 0 x tr (some (j, h)) = execB G cfg (some x) A h (tr ++ [.caught A.lvl i j x]) :=
+  ⟨execC_sel G cfg A i x cs 0 tr, rfl, fun j h => by simp [handleWith]⟩
+
+/-- **When may clauses be left out?** Any rewrite of a clause list that only leaves clauses out (`keepC keep`: the
+clauses failing `keep` are dropped, the others keep their order) selects the same handler for the thrown value `x`
+**iff** the clause that handles `x` in the source is kept. -/
+theorem C05_clause_rewrite_iff (G : Graph) (x : Thrown) (keep : Clause → Bool) (cs : Catches) :
+    selClause G x (keepC keep cs).toList = selClause G x cs.toList ↔
+      ∀ c, selClause G x cs.toList = some c → keep c = true := by
+  rw [toList_keepC]
+  exact selClause_filter_iff G x keep cs.toList
+
+/-- … hence it is invisible for *every* thrown value iff every clause it drops is dead (never the first match) -/
+theorem C05_clause_rewrite_sound_iff (G : Graph) (keep : Clause → Bool) (cs : Catches) :
+    (∀ x, selClause G x (keepC keep cs).toList = selClause G x cs.toList) ↔
+      ∀ x c, selClause G x cs.toList = some c → keep c = true :=
+  ⟨fun h x => (C05_clause_rewrite_iff G x keep cs).1 (h x), fun h x => (C05_clause_rewrite_iff G x keep cs).2 (h x)⟩
+
+/-- **A rethrow-only clause handles.** If the first matching clause for `x` is `catch (T $e) { throw $e; }`, the catch
+phase ends with `x` pending again — same object (`rethrowKeeps`: fix 3113568) — and *no later clause of the same try
+has been consulted*: `x` goes through the finally block to the enclosing statement. -/
+theorem C05_rethrow_only_clause_handles (G : Graph) (cfg : Cfg) (hk : cfg.rethrowKeeps = true) (A : Act) (i j : Nat)
+    (x : Thrown) (cs : Catches) (h : Block) (hsel : sel G x cs = some (j, h)) (hr : rethrowOnly h = true) (tr : List Ev) :
+    execC G cfg A i 0 x cs tr = (.thr x, tr ++ [.caught A.lvl i j x]) := by
+  rw [(C05_handler_is_selection G cfg A i x cs tr).1, hsel]
+  have : h = .cons .rethrow .nil := by
+    unfold rethrowOnly at hr
+    split at hr <;> simp_all
+  subst this
+  simp [handleWith, execB, exec, rethrown, hk]
+
+/-- the same for the whole statement: a `try` whose body lets out `x`, first matching clause rethrow-only: `x` is
+pending over the finally phase, whatever the later clauses are -/
+theorem C05_rethrow_only_try (G : Graph) (cfg : Cfg) (hg : cfg.guarded = true) (hk : cfg.rethrowKeeps = true)
+    (cur : Option Thrown) (A : Act) (i j : Nat) (b : Block) (cs : Catches) (hasFin : Bool) (fin : Block)
+    (tr tr₁ : List Ev) (x : Thrown) (h : Block)
+    (hbody : protect (execB G cfg cur A b (tr ++ [.enterTry A.lvl i])) = (.thr x, tr₁))
+    (hsel : sel G x cs = some (j, h)) (hr : rethrowOnly h = true) :
+    exec G cfg cur A (.try_ i b cs hasFin fin) tr =
+      finallyPhase A.lvl i hasFin (fun t => protect (execB G cfg cur A fin t)) (.thr x, tr₁ ++ [.caught A.lvl i j x]) := by
+  simp only [exec, hg, if_true, tryStmt, hbody, catchPhase, tryValue]
+  rw [C05_rethrow_only_clause_handles G cfg hk A i j x cs h hsel hr]
+  rfl
+
+/-- **Leaving the handling clause out hands the value to the next one.** Source clauses `pre ++ c :: post`, no clause of
+`pre` matches `x`, `c` is dropped: the scan of the rewritten list stops at the first *kept* clause of `post` that
+matches `x`. With `c` rethrow-only that is the difference between "`x` propagates" and "a later, more general clause
+of the same try swallows `x`" — unless no kept clause of `post` matches, the only case in which dropping `c` is sound. -/
+theorem C05_dropped_clause_next_takes_over (G : Graph) (x : Thrown) (keep : Clause → Bool) (pre post : List Clause)
+    (c : Clause) (hpre : ∀ d ∈ pre, clauseMatches G d.1 x = false) (hk : keep c = false) :
+    selClause G x (keepC keep (Catches.ofList (pre ++ c :: post))).toList = selClause G x (post.filter keep) := by
+  rw [toList_keepC]
+  have : ∀ l : List Clause, (Catches.ofList l).toList = l := by
+    intro l; induction l with
+    | nil => rfl
+    | cons a r ih => rcases a with ⟨t, b⟩; simp [Catches.ofList, Catches.toList, ih]
+  rw [this]
+  exact selClause_filter_dropped G x keep pre post c hpre hk
+
+/-- `try { throw new K4 } catch (K4 $e) { throw $e; } catch (Exception $e) { echo 2; }` -/
+def witnessShield : Catches := .cons [4] (.cons .rethrow .nil) (.cons [1] (.cons (.echo 2) .nil) .nil)
+
+/-- **Negation witness for "catch-and-rethrow is equivalent to not having the clause".** With the clause the script
+dies of an uncaught `K4` (and a script that prints no marker in that clause shows `T1;` only: `hide`); with the
+clause left out `catch (Exception)` swallows the object and the script ends normally. -/
+theorem C05_rethrow_only_drop_counterexample :
+    observe ⟨[], [], [(1, 0)]⟩ (run witnessG Cfg.fixed (.ofBlock (.cons (.try_ 1 (.cons (.throw 4 1) .nil) witnessShield false .nil) .nil))) =
+      (.uncaught (.obj 4 1), [.enterTry 0 1]) ∧
+    run witnessG Cfg.fixed (.ofBlock (.cons (.try_ 1 (.cons (.throw 4 1) .nil)
+        (keepC (fun c => !rethrowOnly c.2) witnessShield) false .nil) .nil)) =
+      (.ok, [.enterTry 0 1, .caught 0 1 0 (.obj 4 1), .echo 0 2]) := by
+  constructor <;> decide
+
+/-- **The parser's clause loop, generically.** A clause loop that passes `clauseLoopOK` (one append of the clause
+parsed in this trip, under conditions that cannot fail for a parsed clause; no `continue` / `break` that can fire; no
+other store into the list) hands `NewTryStatement` exactly the clauses of the source, in order — whatever the value
+of any test on a clause. -/
+theorem C05_parsed_clauses_kept (ev : String → Clause → Bool) (F : Model.ExcShape.ParserFacts)
+    (hok : Model.ExcShape.clauseLoopOK F = true) (src : List Clause) : Model.ExcShape.built ev F src = src :=
+  built_ok ev F hok src
+
+/-- … and a loop with a `continue` under a test `g` on the clause builds the source list *without* the clauses that
+pass `g`, so (by `C05_clause_rewrite_iff`) the statement selects the handler the source names for `x` **iff** the
+handling clause fails `g` -/
+theorem C05_clause_skip_iff (ev : String → Clause → Bool) (F : Model.ExcShape.ParserFacts) (g : String)
+    (w : Model.ExcShape.Write) (happ : F.appends = [w]) (hw : w.guards.all Model.ExcShape.Guard.isAlways = true)
+    (hskip : F.skips = [[.other g]]) (G : Graph) (x : Thrown) (src : List Clause) :
+    Model.ExcShape.built ev F src = src.filter (fun c => !ev g c) ∧
+    (selClause G x (Model.ExcShape.built ev F src) = selClause G x src ↔
+      ∀ c, selClause G x src = some c → ev g c = false) := by
+  have hb := built_skip ev F g w happ hw hskip src
+  refine ⟨hb, ?_⟩
+  rw [hb, selClause_filter_iff]
+  simp
+
+/-- a scan that passes `scanOK` (one forward range over `CatchBlocks`, body = `if catchTypeMatches(…) { … return }`)
+runs the first matching clause of the list it is given -/
+theorem C05_scan_is_first_match (S : Model.ExcShape.ScanFacts) (hok : Model.ExcShape.scanOK S = true) (G : Graph)
+    (x : Thrown) (cs : List Clause) : Model.ExcShape.scanSelect G x cs S.loops = selClause G x cs :=
+  scanSelect_ok S hok G x cs
+
+/-- **The regenerated obligation.** In the tree being checked `TryParser.Parse` stores into the three variables it
+hands to `node.NewTryStatement` exactly once each — the try block and the finally block as `parseBlock` returned them,
+every clause `parseCatchBlock` returned appended under no test on the clause —, has no `continue` / `break` in the
+clause loop that can fire, returns nothing but that statement; a clause's body is what `parseBlock` returned;
+`tryValue` scans `t.CatchBlocks` with one forward range that returns at the first `catchTypeMatches`; nothing else in
+`node/` or `parser/` touches `CatchBlocks`. -/
+theorem C05_try_statement_as_parsed :
+    Model.ExcShape.parserOK Generated.C05TryShape.parser = true ∧
+    Model.ExcShape.scanOK Generated.C05TryShape.scan = true ∧
+    Generated.C05TryShape.shapeChanged = [] := by decide
+
+/-- **Source to handler, for this tree.** Whatever the clauses of the source look like, the clause whose body runs for
+`x` is the first clause *of the source* that matches `x`. -/
+theorem C05_source_clause_selected (ev : String → Clause → Bool) (G : Graph) (x : Thrown) (src : List Clause) :
+    Model.ExcShape.scanSelect G x (Model.ExcShape.built ev Generated.C05TryShape.parser src)
+      Generated.C05TryShape.scan.loops = selClause G x src := by
+  have h := C05_try_statement_as_parsed
+  simp only [Model.ExcShape.parserOK, Bool.and_eq_true] at h
+  rw [built_ok ev _ h.1.1, scanSelect_ok _ h.2.1]
+
 /-! ## exit status -/
 
 open Model.Cli in
@@ -510,6 +649,30 @@ example : run exG Cfg.fixed (.ofBlock (.cons (.try_ 1 (.cons (.throw 4 1) .nil) 
   decide
 -- override: pending exception, finally returns
 example : finallyPhase 0 1 true (fun t => (.ret 5, t)) (.thr .internal, []) = (.ret 5, [.enterFinally 0 1]) := by decide
+
+/-! ### clause lists -/
+
+-- K4 thrown at `catch (K5) … catch (I10) … catch (K4) …`: the scan stops at clause 1
+example : sel exG (.obj 4 1) exCatches = some (1, .cons (.echo 7) .nil) := rfl
+-- leaving out the clauses whose body prints 8 (clause 2, dead for K4) is invisible for K4; leaving out clause 1 is not
+example : selClause exG (.obj 4 1) (keepC (fun c => c.1 != [4]) exCatches).toList = selClause exG (.obj 4 1) exCatches.toList := rfl
+example : selClause exG (.obj 4 1) (keepC (fun c => c.1 != [10]) exCatches).toList = some ([4], .cons (.echo 8) .nil) := rfl
+-- hypotheses of `C05_rethrow_only_clause_handles` / `C05_dropped_clause_next_takes_over` on the witness
+example : sel witnessG (.obj 4 1) witnessShield = some (0, .cons .rethrow .nil) ∧ rethrowOnly (.cons .rethrow .nil) = true := ⟨rfl, rfl⟩
+example : selClause witnessG (.obj 4 1) (keepC (fun c => !rethrowOnly c.2) witnessShield).toList = some ([1], .cons (.echo 2) .nil) := rfl
+-- the parser facts of the pinned tree, and of a tree whose clause loop skips rethrow-only clauses
+def exSkippingParser : Model.ExcShape.ParserFacts :=
+  { writes := [{ role := "try", stored := .parsedBlock, inClauseLoop := false, guards := [] },
+               { role := "catch", stored := .appendParsed, inClauseLoop := true, guards := [] },
+               { role := "finally", stored := .parsedBlock, inClauseLoop := false, guards := [.other "p.checkPositionIs(0, token.FINALLY)"] }],
+    skips := [[.never "catchBlock == nil"], [.other "isRethrowOnlyCatch(catchBlock)"]],
+    tryReturns := 1, otherReturns := [], clauseBodyParsed := true, clauseReturns := 1 }
+example : Model.ExcShape.clauseLoopOK Generated.C05TryShape.parser = true ∧ Model.ExcShape.clauseLoopOK exSkippingParser = false := by decide
+example : Model.ExcShape.built (fun _ c => rethrowOnly c.2) exSkippingParser witnessShield.toList = [([1], .cons (.echo 2) .nil)] := rfl
+-- a scan with a fast path in front, a scan that does not stop at the first match: not first-match
+example : Model.ExcShape.scanOK ⟨[⟨"f", true, true, true⟩, ⟨"f", true, true, true⟩], [], true⟩ = false ∧
+    Model.ExcShape.scanOK ⟨[⟨"f", true, true, false⟩], [], true⟩ = false := by decide
+example : Model.ExcShape.ScanLoop.select ⟨"f", true, true, false⟩ exG (.obj 4 1) exCatches.toList = some ([4], .cons (.echo 8) .nil) := rfl
 
 /-! ### re-entrant programs -/
 
